@@ -216,13 +216,7 @@ func (c *Ctx) fieldTable(prop, rule, pkgPath, typeName, field string, reads bool
 		if !reads && a.Writes == 0 {
 			continue
 		}
-		n := FnName(a.Fn)
-		ok := false
-		for _, al := range allowed {
-			if c.E1.re("^(?:" + al + ")$").MatchString(n) {
-				ok = true
-			}
-		}
+		ok, n := c.allowedFn(a.Fn, allowed)
 		if !ok {
 			o.fail(c.A.Pos(a.Pos.Pos()), "%s %s %s, outside the table", n, map[bool]string{true: "accesses", false: "writes"}[reads], construct)
 		}
